@@ -380,6 +380,20 @@ func (fr *FnRun) selField(v Val, name string, env *Env) Val {
 				}
 			}
 		}
+		if env.assuming {
+			// an ASSUMED clause written for one instantiation of a generic dependency (errors.As into a
+			// *net.OpError target) applied to another: the ghost does not exist on this type, the
+			// clause then constrains only a fresh value (it says nothing)
+			for _, gs := range ex.DB.Ghosts {
+				for _, g := range gs {
+					if g.Name == name {
+						if srt, err := sortByName(g.Sort); err == nil {
+							return Var(ex.fresh("noghost."+name), srt)
+						}
+					}
+				}
+			}
+		}
 		panic(abortf("contract: no field %s in %s", name, x.T))
 	case *IfaceV:
 		if x.Pay != nil {
@@ -387,6 +401,17 @@ func (fr *FnRun) selField(v Val, name string, env *Env) Val {
 		}
 		if x.Obj != nil {
 			return fr.selField(ex.heapGet(env.st, x.Obj), name, env)
+		}
+		// an interface value without an object (the nil literal, a value merged from different
+		// objects): a ghost field of it is an arbitrary value (specifications are total)
+		for _, gs := range ex.DB.Ghosts {
+			for _, g := range gs {
+				if g.Name == name {
+					if srt, err := sortByName(g.Sort); err == nil {
+						return Var(ex.fresh("noobj."+name), srt)
+					}
+				}
+			}
 		}
 	}
 	panic(abortf("contract: field %s of %T", name, v))
